@@ -93,6 +93,7 @@ type Violation struct {
 	Detail    string
 	PC        string
 	Obs       []string
+	Permuted  bool // the path iterated a map in a non-insertion order (replay may need repetition)
 }
 
 type Run struct {
@@ -123,6 +124,7 @@ type Run struct {
 	Env     map[string]value // harness-configured environment (flags etc.)
 	depth   int
 	unknownFeas int
+	permuted bool
 	pcVars  map[*Term]bool
 	pcLits  map[*Term]bool
 }
@@ -404,7 +406,7 @@ func (r *Run) assertCond(label string, c value, detail string) {
 		switch res {
 		case Sat:
 			r.Asserts = append(r.Asserts, AssertRec{label, "violated"})
-			r.Viol = append(r.Viol, Violation{Harness: r.Harness, Label: label, Model: m, Decisions: append([]int(nil), r.taken...), Detail: detail, PC: r.pcString(), Obs: r.obsDump()})
+			r.Viol = append(r.Viol, Violation{Harness: r.Harness, Label: label, Model: m, Decisions: append([]int(nil), r.taken...), Detail: detail, PC: r.pcString(), Obs: r.obsDump(), Permuted: r.permuted})
 		case Unsat:
 			panic(abortPath{"path infeasible at assertion"})
 		default:
@@ -416,7 +418,7 @@ func (r *Run) assertCond(label string, c value, detail string) {
 		switch res {
 		case Sat:
 			r.Asserts = append(r.Asserts, AssertRec{label, "violated"})
-			r.Viol = append(r.Viol, Violation{Harness: r.Harness, Label: label, Model: m, Decisions: append([]int(nil), r.taken...), Detail: detail + " cond=" + cv.String(), PC: r.pcString(), Obs: r.obsDump()})
+			r.Viol = append(r.Viol, Violation{Harness: r.Harness, Label: label, Model: m, Decisions: append([]int(nil), r.taken...), Detail: detail + " cond=" + cv.String(), PC: r.pcString(), Obs: r.obsDump(), Permuted: r.permuted})
 			// continue under the assumption that the assertion holds (other violations stay reportable)
 			if r.S.CheckWith(cv) != Sat {
 				panic(abortPath{"assertion fails on the whole path"})
